@@ -34,7 +34,7 @@ def floors(tier):
             "multiple_exact_false": 2000, "big_int_pairs": 1000, "path_float_quotient": 1000,
             "path_overflow_fallback": 1000, "path_int_mod": 1000, "region_multipleOf_except_hit": 1,
             "bound_true": 10000, "bound_false": 10000, "compared_bound_pairs": 5000, "bound_pair_true": 500,
-            "bound_pair_false": 500}
+            "bound_pair_false": 500, "compared_nested_under_root_decoys": 20000}
 
 
 def pool():
@@ -135,6 +135,40 @@ def check_triple(ctx, draft, i, a, b, validators):
             ctx.violation("bound-pair", case, "implementation %s, exact arithmetic %s" % (got, want))
 
 
+def nested_variants(draft, schema):
+    """`schema` below the root of a document whose ROOT object carries numeric keywords of its own, with the opposite
+    exclusive flags (they apply to numbers only, the root instance is an object/array: they must not reach the nested
+    keyword, which reads its own siblings)."""
+    flip = {"exclusiveMinimum": not schema.get("exclusiveMinimum", False), "exclusiveMaximum": not schema.get("exclusiveMaximum", False)}
+    if draft <= 4:
+        decoy = {"minimum": 10 ** 9, "maximum": -10 ** 9, "exclusiveMinimum": flip["exclusiveMinimum"],
+                 "exclusiveMaximum": flip["exclusiveMaximum"], ("divisibleBy" if draft == 3 else "multipleOf"): 10 ** 9 + 7}
+    else:
+        decoy = {"minimum": 10 ** 9, "maximum": -10 ** 9, "exclusiveMinimum": 10 ** 9, "exclusiveMaximum": -10 ** 9, "multipleOf": 10 ** 9 + 7}
+    yield dict(decoy, properties={"a": schema}), (lambda i: {"a": i})
+    yield dict(decoy, items=schema), (lambda i: [i])
+    yield dict(decoy, definitions={"n": schema}, properties={"a": {"$ref": "#/definitions/n"}}), (lambda i: {"a": i})
+    if draft >= 4:
+        yield dict(decoy, properties={"a": {"allOf": [schema]}}), (lambda i: {"a": i})
+    else:
+        yield dict(decoy, properties={"a": {"extends": [schema]}}), (lambda i: {"a": i})
+
+
+def check_nested(ctx, draft, schema, i, want):
+    for S, mk in nested_variants(draft, schema):
+        inst = mk(i)
+        case = {"draft": draft, "schema": S, "instance": inst, "inner": {"schema": schema, "instance": i}}
+        ctx.case([draft, S, inst])
+        ctx.count("compared_nested_under_root_decoys")
+        try:
+            got = impl.CLS[draft](S).is_valid(inst)
+        except Exception as e:
+            ctx.violation("raised", case, "%s: %s" % (type(e).__name__, str(e)[:120]))
+            continue
+        if got != want:
+            ctx.violation("nested", case, "implementation %s below a root with its own numeric keywords, exact arithmetic %s" % (got, want))
+
+
 def expected_bound(i, b, op, strict):
     fi, fb = fr(i), fr(b)
     if op == "ge":
@@ -142,7 +176,7 @@ def expected_bound(i, b, op, strict):
     return fi < fb if strict else fi <= fb
 
 
-def check_pair(ctx, draft, i, b, validators):
+def check_pair(ctx, draft, i, b, validators, nested=False):
     for schema, kind, exp in schemas_for(draft, b):
         key = (draft, repr(schema))
         v = validators.get(key)
@@ -165,6 +199,8 @@ def check_pair(ctx, draft, i, b, validators):
             ctx.count("bound_true" if want else "bound_false")
             if got != want:
                 ctx.violation("bound", case, "implementation %s, exact arithmetic %s" % (got, want))
+            elif nested:
+                check_nested(ctx, draft, schema, i, want)
         else:
             if isinstance(b, float):
                 big = isinstance(i, int) and abs(i) > 2 ** 1024
@@ -182,6 +218,8 @@ def check_pair(ctx, draft, i, b, validators):
                 ctx.count("multiple_exact_true" if want else "multiple_exact_false")
                 if got != want:
                     ctx.violation("multiple", case, "implementation %s, exact arithmetic %s" % (got, want))
+                elif nested:
+                    check_nested(ctx, draft, schema, i, want)
             else:
                 ctx.count("multiple_outside_exact_domain_no_raise_only")
         if isinstance(i, int) and abs(i) > 2 ** 1024 or isinstance(b, int) and abs(b) > 2 ** 1024:
@@ -202,7 +240,7 @@ def run(ctx):
                 if not ctx.mine(idx):
                     continue
                 for d in impl.DRAFTS:
-                    check_pair(ctx, d, i, b, validators)
+                    check_pair(ctx, d, i, b, validators, nested=(fr(i) == fr(b) or idx % 7 == 0))
         rr = random.Random(31337)
         for (i, b) in ulp_neighbours(rr, 1500):
             idx += 1
@@ -211,7 +249,7 @@ def run(ctx):
             if isinstance(i, float) and not math.isfinite(i):
                 continue
             for d in impl.DRAFTS:
-                check_pair(ctx, d, i, b, validators)
+                check_pair(ctx, d, i, b, validators, nested=(idx % 5 == 0))
         # two numeric keywords in one schema object: instance at / next to each bound
         small = [0, 1, 5, 10, 20, 2.5, -1, 2 ** 53, float(2 ** 53), 10 ** 400, 1e308, 5e-324, 0.5, 3]
         for a in small:
@@ -268,5 +306,10 @@ def replay(ctx, rec):
     c = rec["case"]
     s = c["schema"]
     d = c["draft"]
+    nested = "inner" in c
+    if nested:
+        s, inst = c["inner"]["schema"], c["inner"]["instance"]
+    else:
+        inst = c["instance"]
     b = next(v for k, v in s.items() if not isinstance(v, bool))
-    check_pair(ctx, d, c["instance"], b, {})
+    check_pair(ctx, d, inst, b, {}, nested=nested)
